@@ -197,6 +197,17 @@ func genProgC09(rt *rapid.T, depth int) []KOp {
 	if rapid.IntRange(0, 2).Draw(rt, "cp") == 0 {
 		prog = append(prog, KOp{Op: "cp", K: rapid.SampledFrom(kvKeys).Draw(rt, "cpsrc"), V: rapid.SampledFrom(kvKeys).Draw(rt, "cpdst")})
 	}
+	// list-then-insert (drawn after the rest): a key is looked at (often absent), a range covering it is
+	// scanned and the keys the scan yielded are written into an index key
+	if rapid.IntRange(0, 3).Draw(rt, "listinsert") == 0 {
+		probe := KOp{Op: "get", K: rapid.SampledFrom(kvKeys).Draw(rt, "likey")}
+		scan := KOp{Op: "sel", K: "", End: "\x7f", V: "idx"}
+		if rapid.Bool().Draw(rt, "liorder") {
+			prog = append(prog, probe, scan)
+		} else {
+			prog = append(prog, scan, probe)
+		}
+	}
 	switch rapid.IntRange(0, 9).Draw(rt, "failkind") {
 	case 8:
 		prog = append(prog, KOp{Op: "fail", Status: rapid.SampledFrom([]int{400, 500}).Draw(rt, "status")})
